@@ -30,7 +30,7 @@ from kvstatic.minieval import NS, stub
 from kvstatic.ndarr import NDArr
 
 RAISES = (IndexError, KeyError, TypeError, ValueError, AttributeError, ZeroDivisionError, RuntimeError, UnboundLocalError, OverflowError)
-CLAUSES = ('settle', 'bounds', 'cause', 'shift', 'monotone', 'activity', 'overflow')
+CLAUSES = ('settle', 'bounds', 'cause', 'shift', 'monotone', 'activity', 'overflow', 'dataset')
 TEXT = {
     'settle': 'the output waveform starts at LUT(initial operand values) and ends, by transition parity, at LUT(final operand values); its terminator lies inside the capacity',
     'bounds': 'only the output line\'s own entries of its own lane are written',
@@ -38,6 +38,7 @@ TEXT = {
     'shift': 'shifting all operand transitions shifts all output transitions by the same amount',
     'monotone': 'polarity-independent delays and strictly increasing operands give strictly increasing output timestamps',
     'activity': 'the returned (rises, falls) count the rising / falling transitions of the output waveform',
+    'dataset': 'with several delay datasets the result equals the one obtained with the selected dataset alone: mode 0 -> dataset `seed`, mode 1 -> dataset simctl_int[0], otherwise one of the datasets',
     'overflow': 'the terminator is the overflow marker iff a transition was discarded (or an operand was marked); an unmarked waveform equals the unlimited-capacity one',
 }
 
@@ -126,7 +127,7 @@ def situations(luts, tier):
 class Run:
     """one evaluation of the kernel"""
 
-    def __init__(self, f, genv, K, sit, cap=None, shift=0.0, stale=True):
+    def __init__(self, f, genv, K, sit, cap=None, shift=0.0, stale=True, multi=None):
         self.K, self.sit = K, sit
         cap = cap or sit['cap']
         self.cap = cap
@@ -160,8 +161,12 @@ class Run:
         self.op = [sit['lut'], OUT] + idx + [-1, 0, 0]
         self.error = None
         self.ret = None
+        tables, simctl, seed = [d], [0, 2], 1
+        if multi is not None:
+            kinds, simctl, seed = multi
+            tables = [delay_table(k) for k in kinds]
         try:
-            self.ret = minieval.call_function(f, [self.op, self.cbuf, NDArr(self.c_locs), NDArr(self.c_caps), 1, NDArr([d]), NDArr([0, 2]), 1], genv)
+            self.ret = minieval.call_function(f, [self.op, self.cbuf, NDArr(self.c_locs), NDArr(self.c_caps), 1, NDArr(tables), NDArr(simctl), seed], genv)
         except RAISES as ex:
             self.error = f'raises {type(ex).__name__}: {ex}'
         self.after = self.cbuf.tolist()
@@ -248,6 +253,20 @@ def judge(f, genv, K, sit, clauses):
                 bad['overflow'] = 'an operand waveform ends with the overflow marker but the output terminator is not the marker'
             elif not marked and (init, times) != (bi, bt):
                 bad['overflow'] = f'the overflow marker is clear but the waveform {init}@{times} differs from the one computed with capacity 64: {bi}@{bt}'
+    if 'dataset' in clauses and term is not None and sit.get('stale', 0) == 1 and sit['delays'] == 'generic':
+        kinds = ('generic', 'long', 'mixed')
+        alone = []
+        for k in kinds:
+            ra = Run(f, genv, K, dict(sit, delays=k))
+            alone.append((ra.error, decode(ra.out(), K) if not ra.error else None, ra.ret))
+        for simctl, seed, want in (([1, 0], 2, [2]), ([1, 0], 0, [0]), ([1, 1], 2, [1]), ([2, 1], 0, [2]), ([0, 2], 1, [0, 1, 2]), ([5, 2], 7, [0, 1, 2]), ([1, 3], 0, [0, 1, 2])):
+            rm = Run(f, genv, K, sit, multi=(kinds, simctl, seed))
+            got = (rm.error, decode(rm.out(), K) if not rm.error else None, rm.ret)
+            if not any(got == alone[k] for k in want):
+                bad['dataset'] = (f'three delay datasets, simctl_int = [{simctl[0]}, {simctl[1]}] (value, mode), seed {seed}: the result '
+                                  f'{rm.error or got[1][:2]} is not the result obtained with dataset {" / ".join(str(k) for k in want)} alone '
+                                  f'({", ".join(str(alone[k][0] or alone[k][1][:2]) for k in want)})')
+                break
     if 'shift' in clauses and term is not None:
         sh = Run(f, genv, K, sit, shift=8.0, stale=False)
         if sh.error:
@@ -312,3 +331,32 @@ def with_fallback(rep, evaluated, prefix, structural):
         if not evaluated:
             raise
         rep.note(f'{prefix}: the path rules do not recognise the shape of the kernel ({e}); decided by the evaluated kernel rule {prefix}.kernel-eval (bounded family of situations)')
+
+
+def operand_weights(repo):
+    """{op column: bit weight of that operand in the LUT index}, determined by evaluating the kernel with the four projection tables; ModelError
+    when the kernel is outside the evaluator subset or the result is not a bijection onto {1, 2, 4, 8}"""
+    mod = repo.mod('wave_sim')
+    f = mod.func('_wave_eval')
+    K = constants(mod)
+    genv = dict(K)
+    genv['np'] = ndarr.numpy_ns()
+    minieval.module_functions(mod.tree, genv)
+    proj = [sum(1 << x for x in range(16) if (x >> j) & 1) for j in range(4)]
+    out = {}
+    for k in range(4):
+        hits = []
+        for j in range(4):
+            sit = dict(name=f'x{j}', lut=proj[j], ops=[(1, []) if i == k else None for i in range(4)], delays='generic', cap=8, monotone_in=True, ovl_in=None, stale=j % 2)
+            r = Run(f, genv, K, sit)
+            if r.error:
+                raise ModelError(f'_wave_eval: {r.error}')
+            init, times, term = decode(r.out(), K)
+            if init == 1 and not times:
+                hits.append(1 << j)
+        if len(hits) != 1:
+            raise ModelError(f'_wave_eval: operand column {k + 2} does not select exactly one bit of the LUT index')
+        out[k + 2] = hits[0]
+    if sorted(out.values()) != [1, 2, 4, 8]:
+        raise ModelError('_wave_eval: the operand columns do not map one-to-one onto the four LUT index bits')
+    return out
